@@ -116,8 +116,41 @@ func durKey(d *big.Int) string {
 // API must not depend on it, so every replay entry records it.
 var lastGPS = "none"
 
+// The property is about instants: the Location a time.Time value carries must not matter.
+var zoneOffsets = []int{-14 * 3600, -12 * 3600, -5 * 3600, -1, 1, 3600, 5*3600 + 1800, 12*3600 + 2700, 14 * 3600}
+
+func zones() []*time.Location {
+	ls := []*time.Location{time.UTC}
+	for _, o := range zoneOffsets {
+		ls = append(ls, time.FixedZone(fmt.Sprintf("fixed%+d", o), o))
+	}
+	return append(ls, time.Local)
+}
+
+func locName(t time.Time) string {
+	n, o := t.Zone()
+	return fmt.Sprintf("%s(%+ds)", n, o)
+}
+
+var locFails = 0
+
+// locCheck: TimeSinceGPSEpoch of the same instant presented in every zone must be identical (Go side).
+func locCheck(s *cases.Set, t time.Time) {
+	want := gps.Time(t.UTC()).TimeSinceGPSEpoch()
+	for _, l := range zones() {
+		tl := t.In(l)
+		if got := gps.Time(tl).TimeSinceGPSEpoch(); got != want && locFails < 40 {
+			locFails++
+			s.Fail(cases.GoFail{Key: fmt.Sprintf("location-dependent:%s:%s", t.UTC().Format(time.RFC3339Nano), locName(tl)),
+				What:   fmt.Sprintf("gps.Time.TimeSinceGPSEpoch depends on the Location of the time.Time value: %s gives %d ns, the same instant in UTC gives %d ns", tl.Format(time.RFC3339Nano), int64(got), int64(want)),
+				Replay: map[string]interface{}{"api": "gps.Time.TimeSinceGPSEpoch", "instant_utc": t.UTC().Format(time.RFC3339Nano), "presented_as": tl.Format(time.RFC3339Nano), "location": locName(tl), "observed_ns": int64(got), "observed_for_utc_value_ns": int64(want)}})
+		}
+	}
+}
+
 func utcCaseO(s *cases.Set, t time.Time, kind string, far bool, order string) {
 	prev := lastGPS
+	locCheck(s, t)
 	d := gps.Time(t).TimeSinceGPSEpoch()
 	back := time.Time(gps.NewTimeFromTimeSinceGPSEpoch(d))
 	tn := tns(t)
@@ -131,9 +164,12 @@ func utcCaseO(s *cases.Set, t time.Time, kind string, far bool, order string) {
 	if order != "" {
 		key += ":after=" + order
 	}
+	if _, off := t.Zone(); off != 0 {
+		key += fmt.Sprintf(":loc=%+ds", off)
+	}
 	s.Add(cases.Case{Term: fmt.Sprintf("%s %s %s %s", ctor, zb(tn), cq.Z(int64(d)), zb(tns(back))),
 		Key: key, Kind: kind, Nontrivial: true,
-		Replay: map[string]interface{}{"api": "gps.Time.TimeSinceGPSEpoch -> gps.NewTimeFromTimeSinceGPSEpoch", "utc": t.Format(time.RFC3339Nano), "utc_unix_ns": tn.String(),
+		Replay: map[string]interface{}{"api": "gps.Time.TimeSinceGPSEpoch -> gps.NewTimeFromTimeSinceGPSEpoch", "utc": t.UTC().Format(time.RFC3339Nano), "presented_as": t.Format(time.RFC3339Nano), "location": locName(t), "observed_back_location": locName(back), "utc_unix_ns": tn.String(),
 			"observed_since_gps_epoch_ns": int64(d), "observed_back": back.Format(time.RFC3339Nano), "previous_conversion_in_this_process": prev}})
 }
 
@@ -141,6 +177,8 @@ func utcCase(s *cases.Set, t time.Time, kind string, far bool) { utcCaseO(s, t, 
 
 func monoCase(s *cases.Set, t1, t2 time.Time, kind string) {
 	prev := lastGPS
+	locCheck(s, t1)
+	locCheck(s, t2)
 	d1 := gps.Time(t1).TimeSinceGPSEpoch()
 	d2 := gps.Time(t2).TimeSinceGPSEpoch()
 	lastGPS = "utc " + t2.Format(time.RFC3339Nano) + " -> " + d2.String()
@@ -153,6 +191,7 @@ func monoCase(s *cases.Set, t1, t2 time.Time, kind string) {
 func durCaseO(s *cases.Set, d time.Duration, kind string, order string) {
 	prev := lastGPS
 	t := time.Time(gps.NewTimeFromTimeSinceGPSEpoch(d))
+	locCheck(s, t)
 	d2 := gps.Time(t).TimeSinceGPSEpoch()
 	lastGPS = "gps " + d.String() + " <-> " + t.Format(time.RFC3339Nano)
 	db := big.NewInt(int64(d))
@@ -163,7 +202,7 @@ func durCaseO(s *cases.Set, d time.Duration, kind string, order string) {
 	s.Add(cases.Case{Term: fmt.Sprintf("CGps %s %s %s", cq.Z(int64(d)), zb(tns(t)), cq.Z(int64(d2))),
 		Key: key, Kind: kind, Nontrivial: true,
 		Replay: map[string]interface{}{"api": "gps.NewTimeFromTimeSinceGPSEpoch -> gps.Time.TimeSinceGPSEpoch", "since_gps_epoch_ns": int64(d),
-			"observed_utc": t.Format(time.RFC3339Nano), "observed_back_ns": int64(d2), "previous_conversion_in_this_process": prev}})
+			"observed_utc": t.UTC().Format(time.RFC3339Nano), "observed_location": locName(t), "observed_back_ns": int64(d2), "previous_conversion_in_this_process": prev}})
 }
 
 func durCase(s *cases.Set, d time.Duration, kind string) { durCaseO(s, d, kind, "") }
@@ -215,7 +254,7 @@ func gpsCases(s *cases.Set, r *cq.RNG, thorough bool) {
 				prelude(ord, t, d)
 				durCaseO(s, d, "gps-dur-leap-call-order", ord)
 				prelude(ord, t, d)
-				utcCaseO(s, t, "gps-utc-leap-call-order", false, ord)
+				utcCaseO(s, t.In(zones()[r.Intn(len(zoneOffsets)+2)]), "gps-utc-leap-call-order", false, ord)
 			}
 		}
 		// GPS -> UTC strictly increasing next to the inserted second (pairs that do not leave it: UTC repeats 00:00:00 there),
@@ -238,9 +277,30 @@ func gpsCases(s *cases.Set, r *cq.RNG, thorough bool) {
 
 	// --- all remaining cases are issued in a seeded random order ---
 	var jobs []func()
-	qU := func(t time.Time, kind string, far bool) { jobs = append(jobs, func() { utcCase(s, t, kind, far) }) }
+	zs := zones()
+	// every queued UTC instant is presented in a seeded-random Location (UTC, the nine fixed zones, time.Local)
+	qU := func(t time.Time, kind string, far bool) {
+		t = t.In(zs[r.Intn(len(zs))])
+		jobs = append(jobs, func() { utcCase(s, t, kind, far) })
+	}
+	// dense around every leap second +- the zone offset: the step instant S = 00:00:00 UTC and the instant at which the
+	// zone's own clock reads 00:00:00 of that date (S - offset), each with its predecessor, presented in that zone
+	for _, st := range steps() {
+		S := time.Unix(st, 0).UTC()
+		for _, z := range zs[1:] {
+			_, off := S.In(z).Zone()
+			for _, o := range []time.Duration{-time.Nanosecond, 0, time.Second, -time.Duration(off)*time.Second - time.Nanosecond, -time.Duration(off) * time.Second} {
+				t := S.Add(o).In(z)
+				jobs = append(jobs, func() { utcCase(s, t, "gps-utc-leap-other-location", false) })
+			}
+		}
+	}
+	s.Exhaustive("gps locations: for each of the 18 leap steps S and each of the zones -14h,-12h,-5h,-1s,+1s,+1h,+5:30,+12:45,+14h and time.Local: S-1ns, S, S+1s, S-offset-1ns, S-offset presented in that zone (Coq cases); every probed instant additionally compared across all zones on the Go side")
 	qD := func(d time.Duration, kind string) { jobs = append(jobs, func() { durCase(s, d, kind) }) }
-	qM := func(t1, t2 time.Time, kind string) { jobs = append(jobs, func() { monoCase(s, t1, t2, kind) }) }
+	qM := func(t1, t2 time.Time, kind string) {
+		t1, t2 = t1.In(zs[r.Intn(len(zs))]), t2.In(zs[r.Intn(len(zs))])
+		jobs = append(jobs, func() { monoCase(s, t1, t2, kind) })
+	}
 
 	var offs []int64 // ns relative to L = step - 1 s
 	for h := int64(-6); h <= 8; h++ {
@@ -350,7 +410,8 @@ func historyCases(s *cases.Set, r *cq.RNG, thorough bool) {
 		probes = append(probes, func() string { return time.Time(gps.NewTimeFromTimeSinceGPSEpoch(d)).Format(time.RFC3339Nano) })
 	}
 	addT := func(t time.Time) {
-		names = append(names, "utc="+t.Format(time.RFC3339Nano))
+		t = t.In(zones()[r.Intn(len(zoneOffsets)+2)])
+		names = append(names, "utc="+t.UTC().Format(time.RFC3339Nano)+" presented as "+t.Format(time.RFC3339Nano))
 		probes = append(probes, func() string { return strconv.FormatInt(int64(gps.Time(t).TimeSinceGPSEpoch()), 10) })
 	}
 	for i, st := range steps() {
@@ -679,7 +740,7 @@ func main() {
 	dir, seed, thorough := cases.Args()
 	r := cq.NewRNG(seed)
 	s := cases.New("C20", dir, "LW.Corr.C20",
-		"GPS: UTC instants / GPS durations / pairs, dense around each published leap second and random over 1980..2100 at ns resolution; airtime: rows of 256 payload sizes per parameter set (symbol counts exhaustive), single calls incl. out-of-domain; EIRP: all 256 indices, powers at/next to/between table entries and random float32; sensitivity samples. Every case is non-trivial except EIRP indices > 16 (all rejected alike); distinct = distinct printed case")
+		"GPS: UTC instants / GPS durations / pairs, dense around each published leap second and random over 1980..2100 at ns resolution, each instant presented in a seeded-random Location (UTC, fixed zones -14h,-12h,-5h,-1s,+1s,+1h,+5:30,+12:45,+14h, time.Local) and densely around each leap step +- the zone offset, in deliberate and seeded-random call orders; airtime: rows of 256 payload sizes per parameter set (symbol counts exhaustive), single calls incl. out-of-domain; EIRP: all 256 indices, powers at/next to/between table entries and random float32; sensitivity samples. Every case is non-trivial except EIRP indices > 16 (all rejected alike); distinct = distinct printed case")
 	gpsCases(s, r.Fork(), thorough)
 	airtimeCases(s, r.Fork(), thorough)
 	eirpCases(s, r.Fork(), thorough)
